@@ -239,8 +239,8 @@ func c04Scenario(r *sim.Run) {
 
 	// one connection of a session: returns true if the data came back intact
 	// long: 0 = the covert echoes; 1 = one-way upload (the covert only receives; after the first
-	// flight the client sends five more chunks, 12 s apart); 2 = one-way download (the covert sends
-	// five chunks, 12 s apart, the client is silent after its first flight). The transfer lasts a
+	// flight the client sends 32 more chunks, 2 s apart); 2 = one-way download (the covert sends
+	// 32 chunks, 2 s apart, the client is silent after its first flight). The transfer lasts a
 	// minute with one direction idle all the time: every byte must still arrive.
 	connect := func(se *c04Session, id int, data []byte, cuts, tail []int, pauses []time.Duration, natural bool, label string, long int) bool {
 		c := se.c
@@ -298,11 +298,11 @@ func c04Scenario(r *sim.Run) {
 		var err error
 		switch long {
 		case 1:
-			for k := 0; k < 5; k++ {
-				time.Sleep(12 * time.Second)
+			for k := 0; k < stDripN; k++ {
+				time.Sleep(stDripGap)
 				if _, werr := wr.Write(stDripChunk(k)); werr != nil {
 					conn.H.Close()
-					return !fail(se, "relay-broken/one-way-upload", "%s: %d s into a one-way upload (the covert is silent) the client's write failed: %v", label, 12*(k+1), simnet.ErrName(werr))
+					return !fail(se, "relay-broken/one-way-upload", "%s: %d s into a one-way upload (the covert is silent) the client's write failed: %v", label, 2*(k+1), simnet.ErrName(werr))
 				}
 				flush()
 				data = append(append([]byte(nil), data...), stDripChunk(k)...)
@@ -311,7 +311,7 @@ func c04Scenario(r *sim.Run) {
 			r.Probe("one_way_upload_for_a_minute")
 		case 2:
 			var want []byte
-			for k := 0; k < 5; k++ {
+			for k := 0; k < stDripN; k++ {
 				want = append(want, stDripChunk(k)...)
 			}
 			got, err = stReadN(rd, len(want), 90*time.Second)
